@@ -60,10 +60,13 @@ def run(ctx):
     wspecs, wtrees = wc.specs(ctx, random.Random(ctx.seed * 7919 + 100), "C04")
     specs += wspecs
     tr, episodes, fails = sc.run_and_validate(specs)
+    # the repository's own suite: the scans it makes of its resource projects, validated by the same specification
+    str_, sepisodes, sfails, smeta = sc.validate_suite_scans()
+    fails = fails + sfails
     st = sc.stats(episodes)
     if not st["law_instances"].get("restrict") or not st["law_instances"].get("entry"):
         raise tlc.MachineryError(f"vacuous or erroneous run: {st}")
-    cov = {"real_source_trees": wtrees, "states": mc.distinct + tr.states, "transitions": mc.generated + tr.transitions,
+    cov = {"real_source_trees": wtrees, "repository_suite_scans_validated": smeta.get("scans", 0), "repository_suite_scans_skipped": smeta.get("skipped", {}), "states": mc.distinct + tr.states, "transitions": mc.generated + tr.transitions,
            "model_states": mc.distinct, "model_transitions": mc.generated,
            "traces_validated_against_impl": len(episodes), "trace_events": tr.events,
            "emitted_projects": len(projects), "random_projects": n_rand, **st,
